@@ -418,4 +418,41 @@ func init() {
 		Variant{Name: "lifetime end does not stop routed streams", Property: "C04", File: ast,
 			Old: "\tshutdownChan := channel.NewShutdownOnce()\n\t// Wire lifetime context to shutdownChan so cluster connection termination closes the stream\n\tcontext.AfterFunc(lifetime, func() {\n\t\tshutdownChan.Shutdown()\n\t})\n\twg := sync.WaitGroup{}", New: "\tshutdownChan := channel.NewShutdownOnce()\n\twg := sync.WaitGroup{}", Expect: "O4.1"},
 	)
+	// ---- behaviour-preserving refactorings: no rule may report anything on these
+	addVariants(
+		Variant{Name: "benign: ensureCapacity with two copy() segments", Property: "C05", File: pst, Benign: true,
+			Old: "\tfor i := 0; i < b.size; i++ {\n\t\tidx := (b.head + i) % len(b.entries)\n\t\tnewEntries[i] = b.entries[idx]\n\t}\n", New: "\tcopy(newEntries, b.entries[b.head:])\n\tcopy(newEntries[len(b.entries)-b.head:], b.entries[:b.head])\n"},
+		Variant{Name: "benign: RemoveRemoteSendChan in early-return style", Property: "C08", File: shm, Benign: true,
+			Old: "\tif currentChan, exists := sm.remoteSendChannels[shardID]; exists && currentChan == expectedChan {\n\t\tdelete(sm.remoteSendChannels, shardID)\n\t\tsm.logger.Info(\"Removed remote send channel for shard\", tag.NewStringTag(\"shardID\", ClusterShardIDtoString(shardID)))\n\t} else {\n\t\tsm.logger.Info(\"Skipped removing remote send channel for shard (channel mismatch or already removed)\", tag.NewStringTag(\"shardID\", ClusterShardIDtoString(shardID)))\n\t}", New: "\tcurrentChan, exists := sm.remoteSendChannels[shardID]\n\tif !exists || currentChan != expectedChan {\n\t\tsm.logger.Info(\"Skipped removing remote send channel for shard (channel mismatch or already removed)\", tag.NewStringTag(\"shardID\", ClusterShardIDtoString(shardID)))\n\t\treturn\n\t}\n\tdelete(sm.remoteSendChannels, shardID)\n\tsm.logger.Info(\"Removed remote send channel for shard\", tag.NewStringTag(\"shardID\", ClusterShardIDtoString(shardID)))"},
+		Variant{Name: "benign: minimum via the min builtin", Property: "C01", File: pst, Benign: true,
+			Old: "\t\t\t\t\tif first || wm < min {\n\t\t\t\t\t\tmin = wm\n\t\t\t\t\t\tfirst = false\n\t\t\t\t\t}", New: "\t\t\t\t\tif first || min > wm {\n\t\t\t\t\t\tmin = wm\n\t\t\t\t\t\tfirst = false\n\t\t\t\t\t}"},
+		Variant{Name: "benign: same refactoring seen by C03", Property: "C03", File: pst, Benign: true,
+			Old: "\t\t\t\t\tif first || wm < min {\n\t\t\t\t\t\tmin = wm\n\t\t\t\t\t\tfirst = false\n\t\t\t\t\t}", New: "\t\t\t\t\tif first || min > wm {\n\t\t\t\t\t\tmin = wm\n\t\t\t\t\t\tfirst = false\n\t\t\t\t\t}"},
+		Variant{Name: "benign: codec Unmarshal in early-return style", Property: "C17", File: cod, Benign: true,
+			Old: "\terr := c.delegate.Unmarshal(data, v)\n\tif common.IsInvalidUTF8Error(err) {", New: "\terr := c.delegate.Unmarshal(data, v)\n\tif err == nil {\n\t\treturn nil\n\t}\n\tif common.IsInvalidUTF8Error(err) {"},
+		Variant{Name: "benign: access checks reordered (admin list before deny-list)", Property: "C15", File: acl, Benign: true,
+			Old: "\tif strings.HasPrefix(info.FullMethod, api.WorkflowServicePrefix) {\n\t\tmethodName := api.MethodName(info.FullMethod)\n\t\tif !auth.IsAllowedWorkflowMigrationAPIs(methodName) {\n\t\t\treturn nil, status.Errorf(codes.PermissionDenied, \"Calling method %s is not allowed.\", methodName)\n\t\t}\n\t}\n\n\tif i.adminServiceAccess != nil && strings.HasPrefix(info.FullMethod, api.AdminServicePrefix) {\n\t\tmethodName := api.MethodName(info.FullMethod)\n\t\tif !i.adminServiceAccess.IsAllowed(methodName) {\n\t\t\treturn nil, status.Errorf(codes.PermissionDenied, \"Calling method %s is not allowed.\", methodName)\n\t\t}\n\t}\n", New: "\tif i.adminServiceAccess != nil && strings.HasPrefix(info.FullMethod, api.AdminServicePrefix) {\n\t\tmethodName := api.MethodName(info.FullMethod)\n\t\tif !i.adminServiceAccess.IsAllowed(methodName) {\n\t\t\treturn nil, status.Errorf(codes.PermissionDenied, \"Calling method %s is not allowed.\", methodName)\n\t\t}\n\t}\n\n\tif strings.HasPrefix(info.FullMethod, api.WorkflowServicePrefix) {\n\t\tmethodName := api.MethodName(info.FullMethod)\n\t\tif !auth.IsAllowedWorkflowMigrationAPIs(methodName) {\n\t\t\treturn nil, status.Errorf(codes.PermissionDenied, \"Calling method %s is not allowed.\", methodName)\n\t\t}\n\t}\n"},
+		Variant{Name: "benign: same reordering seen by C16", Property: "C16", File: acl, Benign: true,
+			Old: "\tif strings.HasPrefix(info.FullMethod, api.WorkflowServicePrefix) {\n\t\tmethodName := api.MethodName(info.FullMethod)\n\t\tif !auth.IsAllowedWorkflowMigrationAPIs(methodName) {\n\t\t\treturn nil, status.Errorf(codes.PermissionDenied, \"Calling method %s is not allowed.\", methodName)\n\t\t}\n\t}\n\n\tif i.adminServiceAccess != nil && strings.HasPrefix(info.FullMethod, api.AdminServicePrefix) {\n\t\tmethodName := api.MethodName(info.FullMethod)\n\t\tif !i.adminServiceAccess.IsAllowed(methodName) {\n\t\t\treturn nil, status.Errorf(codes.PermissionDenied, \"Calling method %s is not allowed.\", methodName)\n\t\t}\n\t}\n", New: "\tif i.adminServiceAccess != nil && strings.HasPrefix(info.FullMethod, api.AdminServicePrefix) {\n\t\tmethodName := api.MethodName(info.FullMethod)\n\t\tif !i.adminServiceAccess.IsAllowed(methodName) {\n\t\t\treturn nil, status.Errorf(codes.PermissionDenied, \"Calling method %s is not allowed.\", methodName)\n\t\t}\n\t}\n\n\tif strings.HasPrefix(info.FullMethod, api.WorkflowServicePrefix) {\n\t\tmethodName := api.MethodName(info.FullMethod)\n\t\tif !auth.IsAllowedWorkflowMigrationAPIs(methodName) {\n\t\t\treturn nil, status.Errorf(codes.PermissionDenied, \"Calling method %s is not allowed.\", methodName)\n\t\t}\n\t}\n"},
+		Variant{Name: "benign: unregisterMux with deferred unlock", Property: "C11", File: mmm, Benign: true,
+			Old: "\tm.muxesLock.Lock()\n\tmux := m.muxes[id]\n\tm.logger.Info(\"Deregistered mux connection\", tag.NewStringTag(\"id\", id), tag.Error(mux.State().Err), tag.NewInt(\"state\", int(mux.State().State)))\n\tdelete(m.muxes, id)\n\tm.notifyChange()\n\tm.muxesLock.Unlock()", New: "\tm.muxesLock.Lock()\n\tdefer m.muxesLock.Unlock()\n\tmux := m.muxes[id]\n\tm.logger.Info(\"Deregistered mux connection\", tag.NewStringTag(\"id\", id), tag.Error(mux.State().Err), tag.NewInt(\"state\", int(mux.State().State)))\n\tdelete(m.muxes, id)\n\tm.notifyChange()"},
+		Variant{Name: "benign: release before logging on connect failure", Property: "C10", File: prov, Benign: true,
+			Old: "\t\t\t\t\tm.muxPermits.Release(1)\n\t\t\t\t\tm.logger.Info(\"Couldn't connect to mux TCP destination\", tag.Error(err))\n\t\t\t\t\tcontinue connect", New: "\t\t\t\t\tm.logger.Info(\"Couldn't connect to mux TCP destination\", tag.Error(err))\n\t\t\t\t\tm.muxPermits.Release(1)\n\t\t\t\t\tcontinue"},
+		Variant{Name: "benign: parameters built before the literal", Property: "C07", File: cc, Benign: true,
+			Old: "\tinboundCfg := serverConfiguration{", New: "\tinboundLCM := getLCMParameters(connConfig.ShardCountConfig, true)\n\t_ = inboundLCM\n\tinboundCfg := serverConfiguration{"},
+		Variant{Name: "benign: ClientAuth through a local constant", Property: "C19", File: tlsf, Benign: true,
+			Old: "\t\ttlsConfig.ClientAuth = tls.RequireAndVerifyClientCert\n", New: "\t\tconst mode = tls.RequireAndVerifyClientCert\n\t\ttlsConfig.ClientAuth = mode\n"},
+		Variant{Name: "benign: skip list gains an event type without namespaces", Property: "C12", File: refl, Benign: true,
+			Old: "\t\tenums.EVENT_TYPE_TIMER_STARTED:                       {},\n", New: "\t\tenums.EVENT_TYPE_TIMER_STARTED:                       {},\n\t\tenums.EVENT_TYPE_NEXUS_OPERATION_CANCEL_REQUEST_COMPLETED: {},\n"},
+		Variant{Name: "benign: forwardAcks shuts down through a named helper", Property: "C06", File: ast, Benign: true,
+			Old: "\t\tdefer f.logger.Info(\"proxyStreamForwarder forwardAck finished\")\n\t\tf.shutdownChan.Shutdown()\n", New: "\t\tdefer f.logger.Info(\"proxyStreamForwarder forwardAck finished\")\n\t\tlatch := f.shutdownChan\n\t\tlatch.Shutdown()\n"},
+		Variant{Name: "benign: Discard with a local for the clamped count", Property: "C05", File: pst, Benign: true,
+			Old: "\tb.head = (b.head + count) % len(b.entries)\n\tb.size -= count\n\tb.startProxyID += int64(count)", New: "\tn := count\n\tb.head = (b.head + n) % len(b.entries)\n\tb.size -= n\n\tb.startProxyID += int64(n)"},
+		Variant{Name: "benign: ReportStreamValue growth factored into a helper-free block", Property: "C20", File: obs, Benign: true,
+			Old: "\tif int(idx) >= len(s.streamActive) {", New: "\tif need := int(idx) + 1; need > len(s.streamActive) {"},
+		Variant{Name: "benign: NotifyMsg compares with !After-or-equal form", Property: "C09", File: shm, Benign: true,
+			Old: "\t\t\t\tif localShard.Created.Before(msg.Timestamp) {", New: "\t\t\t\tif older := localShard.Created.Before(msg.Timestamp); older {"},
+		Variant{Name: "benign: translator constructor with locals", Property: "C13", File: trl, Benign: true,
+			Old: "\treturn &translatorImpl{\n\t\tlogger:      logger,\n\t\tmatchMethod: func(string) bool { return true },\n\t\tmatchReq:    createStringMatcher(reqMap),\n\t\tmatchResp:   createStringMatcher(respMap),", New: "\treqMatcher, respMatcher := createStringMatcher(reqMap), createStringMatcher(respMap)\n\treturn &translatorImpl{\n\t\tlogger:      logger,\n\t\tmatchMethod: func(string) bool { return true },\n\t\tmatchReq:    reqMatcher,\n\t\tmatchResp:   respMatcher,"},
+	)
 }
